@@ -14,6 +14,8 @@ pub enum Step {
     ReopenInProc,
     /// rename all WAL files of the instance directory to future timestamps, then fresh reopen
     ClockRegress,
+    /// driver side: occupy / free the name of the marker store's temporary file
+    MarkerOutage(bool),
 }
 
 #[derive(Clone, Debug, Default)]
@@ -69,6 +71,10 @@ pub struct Run {
     pub reopens: u32,
     /// a marker changed (append / mark) since the last reopen or settle sleep
     marker_changed: bool,
+    /// a marker-file outage is in progress (Step::MarkerOutage(true) emitted, not yet ended)
+    outage: bool,
+    /// a marker changed while an outage was in progress
+    changed_in_outage: bool,
 }
 
 /// exit status the H1 hook uses for a planned death
@@ -96,6 +102,8 @@ impl Run {
             pending_peek: None,
             reopens: 0,
             marker_changed: false,
+            outage: false,
+            changed_in_outage: false,
         };
         r.spawn_and_open()?;
         Ok(r)
@@ -121,6 +129,8 @@ impl Run {
             pending_peek: None,
             reopens: 0,
             marker_changed: false,
+            outage: false,
+            changed_in_outage: false,
         }
     }
 
@@ -397,7 +407,18 @@ impl Run {
                 v.push(Step::Do(Op::Count { inst: 0, t }));
             }
             AbsOp::CountAll => v.push(Step::Do(Op::CountAll { inst: 0 })),
+            AbsOp::MarkerOutage { on } => {
+                if *on != self.outage {
+                    self.outage = *on;
+                    v.push(Step::MarkerOutage(*on));
+                }
+            }
             AbsOp::Reopen { .. } | AbsOp::ClockRegress => {
+                if self.outage {
+                    // the outage is transient: it is over before the instance is shut down
+                    self.outage = false;
+                    v.push(Step::MarkerOutage(false));
+                }
                 if self.marker_changed && self.opts.exclude.contains("marker-settle-before-reopen") {
                     // known finding: a marker change is lost when the instance goes away inside
                     // the persister's coalescing window; give it 50x that window
@@ -574,6 +595,28 @@ impl Run {
             Step::ReopenFresh => self.reopen(true, false),
             Step::ReopenInProc => self.reopen(false, false),
             Step::ClockRegress => self.reopen(true, true),
+            Step::MarkerOutage(on) => {
+                let p = self.inst_dir().join("topic_clean_index.db.tmp");
+                if *on {
+                    // mkdir only: it fails while a persist has its temporary file in place, and
+                    // nothing is ever unlinked under a running persist (a directory must never
+                    // be what the store renames into place)
+                    if std::fs::create_dir(&p).is_ok() {
+                        self.feat("marker_outage");
+                    } else {
+                        self.changed_in_outage = false;
+                        self.outage = false;
+                    }
+                } else {
+                    let _ = std::fs::remove_dir(&p);
+                    if self.changed_in_outage {
+                        self.feat("marker_changed_during_outage");
+                        self.changed_in_outage = false;
+                    }
+                }
+                self.out.trace.push(format!("marker outage {}", if *on { "begins" } else { "ends" }));
+                Ok(())
+            }
         }
     }
 
@@ -685,6 +728,7 @@ impl Run {
                     let id = ent_id(*t, *seq, *len, &mut self.cache);
                     if self.model.on_append_ok(*t, id) {
                         self.marker_changed = true;
+                        self.changed_in_outage |= self.outage;
                     }
                     let (rot, mu) = {
                         let tm = &self.model.topics[*t as usize];
@@ -726,6 +770,7 @@ impl Run {
                         let id = ent_id(*t, seq0 + i as u64, *l, &mut self.cache);
                         if self.model.on_append_ok(*t, id) {
                             self.marker_changed = true;
+                        self.changed_in_outage |= self.outage;
                         }
                         if *l == 0 {
                             self.feat("zero_len_entry");
@@ -867,6 +912,7 @@ impl Run {
             Op::MarkClean { t, .. } => {
                 if !self.model.topics[*t as usize].clean || self.model.topics[*t as usize].clean_unknown {
                     self.marker_changed = true;
+                        self.changed_in_outage |= self.outage;
                 }
                 self.model.topics[*t as usize].clean = true;
                 self.model.topics[*t as usize].clean_unknown = false;
@@ -875,6 +921,7 @@ impl Run {
             Op::MarkDirty { t, .. } => {
                 if self.model.topics[*t as usize].clean || self.model.topics[*t as usize].clean_unknown {
                     self.marker_changed = true;
+                        self.changed_in_outage |= self.outage;
                 }
                 self.model.topics[*t as usize].clean = false;
                 self.model.topics[*t as usize].clean_unknown = false;
